@@ -546,35 +546,29 @@ def table_rules(prog, chk, pid):
     m = prog.module(BF3)
     tm = prog.fold_name(m, "BF2_TAGTYPE_MAP")
     fi = prog.func(BF3 + ".is_known_tagtype")
-    ranges = None
-    for n in ast.walk(fi.node):
-        if isinstance(n, ast.Assign) and isinstance(n.value, ast.List):
-            try:
-                ranges = [tuple(x) for x in prog.fold(m, n.value)]
-            except NotConst:
-                pass
-    okr = ranges is not None and sorted(b for b, _ in ranges) == sorted(tm.keys()) and all(b <= e for b, e in ranges) and all(ranges[i][1] < ranges[i + 1][0] for i in range(len(ranges) - 1))
-    chk.require(okr, P_("tagtype-tables-agree"), BF3, "bases of is_known_tagtype ranges == keys of BF2_TAGTYPE_MAP", "%s:%d" % (fi.file, fi.lineno), "every known tag-type range starts at a mapped tag type and every mapped type opens a range (ranges ascending, disjoint)", "known ranges %s vs mapped keys %s" % (ranges, sorted(tm.keys())))
-    # the predicate itself: interpreted for every tag type 0..255 (and the neighbours of the byte range) and compared with "some range contains it, both ends inclusive"
+    # the predicate is interpreted for every tag type 0..255 (and the neighbours of the byte range), however its table is written (list, tuple, ranges, a loop, any());
+    # the reference is the pinned domain table: a tag type is known exactly when one of the pinned ranges contains it, both ends inclusive
+    ranges = [tuple(r) for r in TABLE["known_ranges"]]
+    okr = sorted(b for b, _ in ranges) == sorted(tm.keys()) and all(b <= e for b, e in ranges) and all(ranges[i][1] < ranges[i + 1][0] for i in range(len(ranges) - 1))
+    chk.require(okr, P_("tagtype-tables-agree"), BF3, "bases of the known tag-type ranges == keys of BF2_TAGTYPE_MAP", "%s:%d" % (fi.file, fi.lineno), "every known tag-type range starts at a mapped tag type and every mapped type opens a range (ranges ascending, disjoint)", "known ranges %s vs mapped keys %s" % (ranges, sorted(tm.keys())))
     from rules import stackrt as _R
 
-    okp, whyp = ranges is not None, "the table of known ranges is not a constant list"
-    if okp:
-        stk = _R.Stack(prog)
-        for t in list(range(-1, 257)):
-            exq, resq = stk.run(BF3, "def drv():\n    return is_known_tagtype(%d)\n" % t, {})
-            want_t = any(b_ <= t <= e_ for b_, e_ in ranges)
-            got_t = cval(resq.ret) if (not resq.dead and resq.ret is not None and is_const(resq.ret)) else "?"
-            if got_t == "?" :
-                raise AnalysisError("is_known_tagtype(%d) does not evaluate to a constant" % t)
-            if bool(got_t) != want_t or not isinstance(got_t, bool):
-                okp, whyp = False, "is_known_tagtype(0x%02X) is %r; the range table says %r" % (t & 0xFFF, got_t, want_t)
-                break
-    chk.require(okp, P_("tagtype-tables-agree"), fi.qualname, "is_known_tagtype(t) for t = -1..256", "%s:%d" % (fi.file, fi.lineno), "a tag type is known exactly when one of the ranges contains it, both ends inclusive", whyp)
+    okp, whyp = True, ""
+    stk = _R.Stack(prog)
+    for t in list(range(-1, 257)):
+        exq, resq = stk.run(BF3, "def drv():\n    return is_known_tagtype(%d)\n" % t, {})
+        want_t = any(b_ <= t <= e_ for b_, e_ in ranges)
+        got_t = cval(resq.ret) if (not resq.dead and resq.ret is not None and is_const(resq.ret)) else "?"
+        if got_t == "?" :
+            raise AnalysisError("is_known_tagtype(%d) does not evaluate to a constant" % t)
+        if bool(got_t) != want_t or not isinstance(got_t, bool):
+            okp, whyp = False, "is_known_tagtype(0x%02X) is %r; the pinned range table says %r" % (t & 0xFFF, got_t, want_t)
+            break
+    chk.require(okp, P_("tagtype-tables-agree"), fi.qualname, "is_known_tagtype(t) for t = -1..256", "%s:%d" % (fi.file, fi.lineno), "a tag type is known exactly when one of the pinned ranges contains it, both ends inclusive", whyp)
     want = {int(k, 16): tuple(v) for k, v in TABLE["tagtype_map"].items()}
     chk.require(dict(tm) == want, P_("tagtype-map-pinned"), BF3 + ".BF2_TAGTYPE_MAP", "tag type -> (type, hwcid, format, interface)", "", "mapping equals the pinned domain table (0x35 SM4200, 0x39 BGM12X, 0x3D PN5180, 0x40 SM6300 peripherals as blobs; 0x70/0x83 loader, 0x84 main as BF2-compatible; 0x34/0x48 ignored)",
                 "BF2_TAGTYPE_MAP differs from the pinned table at %s" % sorted(k for k in set(tm) | set(want) if tm.get(k) != want.get(k)))
-    chk.require(ranges is not None and [list(r) for r in ranges] == TABLE["known_ranges"], P_("tagtype-map-pinned"), fi.qualname, "known tag-type ranges", "", "ranges equal the pinned table", "known ranges differ from the pinned table")
+    chk.require(okp, P_("tagtype-map-pinned"), fi.qualname, "known tag-type ranges", "", "the predicate agrees with the pinned ranges on every tag type", "known ranges differ from the pinned table: " + whyp)
     bi = prog.fold_name(m, "BF2_INTERFACES")
     chk.require(bi == TABLE["interfaces"], P_("interfaces-pinned"), BF3 + ".BF2_INTERFACES", "BF2 protocol name -> interface id", "", "interface names map to the pinned ids", "BF2_INTERFACES differs from the pinned table")
     sp = prog.fold_name(m, "PFID2FILTER_TO_HWCID_SPECIAL_CASES")
